@@ -16,7 +16,11 @@ import (
 	"verif/harness/core"
 )
 
-func main() { core.Main("C10", runC10, replayC10) }
+func main() {
+	c10InitKinds()
+	c10InitFacs()
+	core.Main("C10", runC10, replayC10)
+}
 
 // ---------------------------------------------------------------------------
 // cases
@@ -27,6 +31,9 @@ type c10Col struct {
 	Str    bool   `json:"str,omitempty"`
 	MaxDef int    `json:"maxdef,omitempty"` // 0 = required
 	Rep    bool   `json:"rep,omitempty"`    // repeated int64 (max repetition level 1, max definition level 1)
+	// Type: the kind of the column (types.go); "" = INT(64) (or STRING when Str). The cells of a typed
+	// column hold ordinals; the column holds their images emb_K(ordinal).
+	Type string `json:"type,omitempty"`
 }
 
 // c10Cell is the value of one column of one row. A non-repeated cell is null
@@ -37,6 +44,7 @@ type c10Cell struct {
 	S string  `json:"s,omitempty"`
 	L []int64 `json:"l,omitempty"`
 	N []bool  `json:"n,omitempty"` // repeated columns of max definition level 2: null elements
+	NZ bool   `json:"nz,omitempty"` // FLOAT / DOUBLE columns, ordinal 0: the value is -0
 }
 
 type c10Sort struct {
@@ -58,6 +66,7 @@ type c10Step struct {
 type c10Case struct {
 	Kind    string     `json:"kind"`   // generic | buffer | rowbuffer | writer | repeated
 	Master  bool       `json:"master"` // the schema is the Go struct c10RowT
+	Struct  string     `json:"struct,omitempty"` // the schema is the Go struct of this name (typed.go): generic | rowbuffer | writer
 	Cols    []c10Col   `json:"cols"`
 	Sorting []c10Sort  `json:"sorting"`
 	Steps   []c10Step  `json:"steps"`
@@ -189,6 +198,9 @@ func c10MakeRow(cols []c10Col, cells []c10Cell) parquet.Row {
 			row = append(row, parquet.Value{}.Level(0, cell.D, k))
 		case col.Str:
 			row = append(row, parquet.ByteArrayValue([]byte(cell.S)).Level(0, col.MaxDef, k))
+		case col.typed():
+			kd := c10KindOf(col.Type)
+			row = append(row, kd.val(c10CellTV(kd, cell)).Level(0, col.MaxDef, k))
 		default:
 			row = append(row, parquet.Int64Value(cell.I).Level(0, col.MaxDef, k))
 		}
@@ -242,9 +254,27 @@ func c10ParseRow(cols []c10Col, row parquet.Row) (cells []c10Cell, ok bool) {
 		if v.DefinitionLevel() != col.MaxDef {
 			return nil, false
 		}
-		if col.Str {
+		switch {
+		case col.Str:
+			if v.Kind() != parquet.ByteArray {
+				return nil, false
+			}
 			cells[k].S = string(v.ByteArray())
-		} else {
+		case col.typed():
+			// the value must be of the physical type of the kind and the image of an ordinal
+			kd := c10KindOf(col.Type)
+			if v.Kind() != kd.phys {
+				return nil, false
+			}
+			o, nz, good := c10Unembed(kd, kd.read(v))
+			if !good {
+				return nil, false
+			}
+			cells[k].I, cells[k].NZ = o, nz
+		default:
+			if v.Kind() != parquet.Int64 {
+				return nil, false
+			}
 			cells[k].I = v.Int64()
 		}
 	}
@@ -277,6 +307,10 @@ func c10Canon(cols []c10Col, cells []c10Cell) string {
 			sb.WriteString("n@" + strconv.Itoa(cell.D))
 		case col.Str:
 			sb.WriteString(core.Hexs([]byte(cell.S)) + "@" + strconv.Itoa(cell.D))
+		case col.typed():
+			// the ordinal and the value it stands for
+			kd := c10KindOf(col.Type)
+			sb.WriteString("i" + core.Zs(cell.I) + "=" + c10TVString(kd.order, c10CellTV(kd, cell)) + "@" + strconv.Itoa(cell.D))
 		default:
 			sb.WriteString("i" + core.Zs(cell.I) + "@" + strconv.Itoa(cell.D))
 		}
@@ -396,11 +430,16 @@ func c10Schema(cs *c10Case) *parquet.Schema {
 	if cs.Master {
 		return parquet.SchemaOf(c10RowT{})
 	}
+	if cs.Struct != "" {
+		return c10Facs[cs.Struct].schema()
+	}
 	g := parquet.Group{}
 	for _, col := range cs.Cols {
 		var n parquet.Node
 		if col.Str {
 			n = parquet.String()
+		} else if col.typed() {
+			n = c10KindOf(col.Type).node()
 		} else {
 			n = parquet.Int(64)
 		}
@@ -568,6 +607,88 @@ func c10Large(c *core.Ctx) {
 	}
 }
 
+// c10CmpCells: the order the sorting columns declare on two logical rows (< 0: a before b), decided by
+// the harness on the decoded Go values of the cells (c10CmpTV for the columns of a kind, signed integers
+// and unsigned bytes for the INT(64) and STRING columns); the library's comparison functions are not
+// involved. Ascending/descending applies to the values, nulls first/last to the position of the nulls
+// whatever the direction. ok = false when a sorting column is repeated (no order is declared by the
+// harness for those: see the repeated-column model).
+func c10CmpCells(cols []c10Col, sorting []c10Sort, a, b []c10Cell) (cmp int, ok bool) {
+	for _, s := range sorting {
+		col := cols[s.Col]
+		if col.Rep {
+			return 0, false
+		}
+		x, y := a[s.Col], b[s.Col]
+		nx, ny := x.D < col.MaxDef, y.D < col.MaxDef
+		switch {
+		case nx && ny:
+			continue
+		case nx || ny:
+			if nx == s.NullsFirst {
+				return -1, true
+			}
+			return +1, true
+		}
+		c := 0
+		switch {
+		case col.Str:
+			c = c10CmpTV(c10OrdBytes, c10TV{b: []byte(x.S)}, c10TV{b: []byte(y.S)})
+		case col.typed():
+			kd := c10KindOf(col.Type)
+			c = c10CmpTV(kd.order, c10CellTV(kd, x), c10CellTV(kd, y))
+		default:
+			c = c10CmpTV(c10OrdSigned, c10TV{i: x.I}, c10TV{i: y.I})
+		}
+		if s.Desc {
+			c = -c
+		}
+		if c != 0 {
+			return c, true
+		}
+	}
+	return 0, true
+}
+
+// c10Comparator: Schema.Comparator of the case's schema (schema = nil: derived from the case); a panic of
+// its construction or of a comparison is a violation (the comparison then counts as 0).
+func c10Comparator(c *core.Ctx, cs *c10Case, schema *parquet.Schema, sorting []parquet.SortingColumn) func(a, b parquet.Row) int {
+	var f func(a, b parquet.Row) int
+	func() {
+		defer func() {
+			if e := recover(); e != nil {
+				c.Violation("panic", fmt.Sprintf("Schema.Comparator(%v) panicked: %v", sorting, e), cs)
+			}
+		}()
+		if schema == nil {
+			schema = c10Schema(cs)
+		}
+		f = schema.Comparator(sorting...)
+	}()
+	return func(a, b parquet.Row) (r int) {
+		if f == nil {
+			return 0
+		}
+		defer func() {
+			if e := recover(); e != nil {
+				c.Violation("panic", fmt.Sprintf("Schema.Comparator panicked on the rows %v and %v: %v; sorting %+v", a, b, e, cs.Sorting), cs)
+				r = 0
+			}
+		}()
+		return f(a, b)
+	}
+}
+
+func c10Sgn(x int) int {
+	switch {
+	case x < 0:
+		return -1
+	case x > 0:
+		return 1
+	}
+	return 0
+}
+
 func c10Sign(x int) byte {
 	switch {
 	case x < 0:
@@ -608,6 +729,17 @@ func c10CheckBuffer(c *core.Ctx, cs *c10Case) (obs []c10Obs, ok bool) {
 	}
 	if msg := c10Guard(func() {
 		opt := parquet.SortingRowGroupConfig(parquet.SortingColumns(sorting...))
+		if cs.Struct != "" {
+			f := c10Facs[cs.Struct]
+			if cs.Kind == "generic" {
+				buf, typedWrite = f.newGeneric(opt)
+				typedTok = "T"
+			} else {
+				buf, typedWrite = f.newRowBuffer(opt)
+			}
+			schema = f.schema()
+			return
+		}
 		switch cs.Kind {
 		case "generic":
 			b := parquet.NewGenericBuffer[c10RowT](opt)
@@ -655,7 +787,7 @@ func c10CheckBuffer(c *core.Ctx, cs *c10Case) (obs []c10Obs, ok bool) {
 		c.Violation("panic", "constructing the buffer panicked: "+msg, cs)
 		return nil, false
 	}
-	compare := schema.Comparator(sorting...)
+	compare := c10Comparator(c, cs, schema, sorting)
 	head := c10ModelHead(cs)
 	// the model: the multi-column buffer of required and optional columns, or
 	// (sorting by one repeated column) the repeated column buffer alone
@@ -711,6 +843,18 @@ func c10CheckBuffer(c *core.Ctx, cs *c10Case) (obs []c10Obs, ok bool) {
 				for j := 0; j < n; j++ {
 					l := buf.Less(i, j)
 					sb.WriteString(b01(l))
+					// the order declared by the sorting columns (the harness's own comparator)
+					if own, has := c10CmpCells(cols, cs.Sorting, cur[i], cur[j]); has && good {
+						if (own < 0) != l {
+							good = false
+							c.Violation("less-not-declared-order", fmt.Sprintf("%s: Less(%d,%d) = %v but the sorting columns order row %d %s row %d; rows %s and %s; sorting %+v",
+								where, i, j, l, i, map[int]string{-1: "before", 0: "equal to", 1: "after"}[c10Sgn(own)], j, c10Canon(cols, cur[i]), c10Canon(cols, cur[j]), cs.Sorting), cs)
+						} else if x := compare(prs[i], prs[j]); c10Sgn(x) != c10Sgn(own) {
+							good = false
+							c.Violation("comparator-not-declared-order", fmt.Sprintf("%s: Schema.Comparator(row %d, row %d) = %d but the sorting columns order row %d %s row %d; rows %s and %s; sorting %+v",
+								where, i, j, x, i, map[int]string{-1: "before", 0: "equal to", 1: "after"}[c10Sgn(own)], j, c10Canon(cols, cur[i]), c10Canon(cols, cur[j]), cs.Sorting), cs)
+						}
+					}
 					if want := compare(prs[i], prs[j]) < 0; want != l && good {
 						good = false
 						c.Violation(cls("less-vs-comparator"), fmt.Sprintf("%s: Less(%d,%d) = %v but Schema.Comparator(row %d, row %d) = %d; rows %s and %s; sorting %+v",
@@ -892,6 +1036,11 @@ func c10CheckBuffer(c *core.Ctx, cs *c10Case) (obs []c10Obs, ok bool) {
 			// ordered by the comparator
 			if sortedNow {
 				for i := 0; i+1 < len(got); i++ {
+					if own, has := c10CmpCells(cols, cs.Sorting, gotCells[i], gotCells[i+1]); has && own > 0 {
+						c.Violation("not-sorted", fmt.Sprintf("%s: after sort.Sort rows %d and %d are not in the order of the sorting columns: %s then %s; sorting %+v", where, i, i+1, a[i], a[i+1], cs.Sorting), cs)
+						ok = false
+						break
+					}
 					if x := compare(got[i], got[i+1]); x > 0 {
 						c.Violation(cls("not-sorted"), fmt.Sprintf("%s: after sort.Sort rows %d and %d are out of order for Schema.Comparator (%d): %s then %s; sorting %+v", where, i, i+1, x, a[i], a[i+1], cs.Sorting), cs)
 						ok = false
@@ -984,7 +1133,27 @@ func c10CheckWriter(c *core.Ctx, cs *c10Case) bool {
 		out := new(bytes.Buffer)
 		var written [][]c10Cell
 		closed := false
-		w := parquet.NewSortingWriter[c10RowT](out, int64(cs.SortRows), wopts...)
+		// the writer: over the master struct, over the struct of a kind (typed.go), or over a Group
+		// schema (SortingWriter[any]: rows are written with WriteRows only)
+		var w c10SW
+		var typedWrite func(rows [][]c10Cell) error
+		switch {
+		case cs.Master:
+			mw := parquet.NewSortingWriter[c10RowT](out, int64(cs.SortRows), wopts...)
+			w = mw
+			typedWrite = func(rows [][]c10Cell) error {
+				rs := make([]c10RowT, len(rows))
+				for i := range rows {
+					rs[i] = c10ToStruct(rows[i])
+				}
+				_, err := mw.Write(rs)
+				return err
+			}
+		case cs.Struct != "":
+			w, typedWrite = c10Facs[cs.Struct].newWriter(out, int64(cs.SortRows), wopts...)
+		default:
+			w = parquet.NewSortingWriter[any](out, int64(cs.SortRows), append(wopts, c10Schema(cs))...)
+		}
 		closeFile := func() bool {
 			if err := w.Close(); err != nil {
 				failure = "Close: " + err.Error()
@@ -995,13 +1164,13 @@ func c10CheckWriter(c *core.Ctx, cs *c10Case) bool {
 			return true
 		}
 		for _, st := range cs.Steps {
-			switch st.Op {
+			op := st.Op
+			if op == "write" && typedWrite == nil {
+				op = "writerows"
+			}
+			switch op {
 			case "write":
-				rs := make([]c10RowT, len(st.Rows))
-				for i := range st.Rows {
-					rs[i] = c10ToStruct(st.Rows[i])
-				}
-				if _, err := w.Write(rs); err != nil {
+				if err := typedWrite(st.Rows); err != nil {
 					failure = "Write: " + err.Error()
 					return
 				}
@@ -1151,7 +1320,7 @@ func c10CheckWriterModel(c *core.Ctx, cs *c10Case, files []c10File, gotIDs [][]i
 	if len(model) != len(gotIDs) {
 		return bad()
 	}
-	compare := parquet.SchemaOf(c10RowT{}).Comparator(c10SortingColumns(cs)...)
+	// rows of equal keys: by the harness's comparator on the cells
 	for fi := range model {
 		if len(model[fi]) != len(gotIDs[fi]) {
 			return bad()
@@ -1159,7 +1328,7 @@ func c10CheckWriterModel(c *core.Ctx, cs *c10Case, files []c10File, gotIDs [][]i
 		var a, b []int
 		for p, k := range model[fi] {
 			g := num[gotIDs[fi][p]]
-			if g != k && compare(c10MakeRow(cs.Cols, rows[g]), c10MakeRow(cs.Cols, rows[k])) != 0 {
+			if own, _ := c10CmpCells(cs.Cols, cs.Sorting, rows[g], rows[k]); g != k && own != 0 {
 				return bad()
 			}
 			a, b = append(a, g), append(b, k)
@@ -1238,8 +1407,7 @@ func c10CheckWriterFile(c *core.Ctx, cs *c10Case, fi, nfiles int, file c10File) 
 			break
 		}
 	}
-	schema := parquet.SchemaOf(c10RowT{})
-	compare := schema.Comparator(sorting...)
+	compare := c10Comparator(c, cs, nil, sorting)
 	gotCells := make([][]c10Cell, len(got))
 	ids := make([]int64, len(got))
 	a := make([]string, len(got))
@@ -1254,6 +1422,18 @@ func c10CheckWriterFile(c *core.Ctx, cs *c10Case, fi, nfiles int, file c10File) 
 		a[i] = c10Canon(cols, cells)
 	}
 	for i := 0; i+1 < len(got); i++ {
+		// the order declared by the sorting columns (the harness's own comparator), then Schema.Comparator
+		own, _ := c10CmpCells(cols, cs.Sorting, gotCells[i], gotCells[i+1])
+		if own > 0 {
+			c.Violation("writer-not-sorted", fmt.Sprintf("%soutput rows %d and %d are not in the order of the sorting columns: %s then %s; sorting %+v", where, i, i+1, a[i], a[i+1], cs.Sorting), cs)
+			ok = false
+			break
+		}
+		if own == 0 && cs.Dedupe {
+			c.Violation("writer-duplicate-key", fmt.Sprintf("%sDropDuplicatedRows: output rows %d and %d have the same key: %s and %s", where, i, i+1, a[i], a[i+1]), cs)
+			ok = false
+			break
+		}
 		x := compare(got[i], got[i+1])
 		if x > 0 {
 			c.Violation("writer-not-sorted", fmt.Sprintf("%soutput rows %d and %d are out of order for Schema.Comparator: %s then %s; sorting %+v", where, i, i+1, a[i], a[i+1], cs.Sorting), cs)
@@ -1299,10 +1479,11 @@ func c10CheckWriterFile(c *core.Ctx, cs *c10Case, fi, nfiles int, file c10File) 
 		for i := range idx {
 			idx[i] = i
 		}
-		sort.SliceStable(idx, func(x, y int) bool { return compare(wrows[idx[x]], wrows[idx[y]]) < 0 })
+		ownCmp := func(x, y []c10Cell) int { r, _ := c10CmpCells(cols, cs.Sorting, x, y); return r }
+		sort.SliceStable(idx, func(x, y int) bool { return ownCmp(written[idx[x]], written[idx[y]]) < 0 })
 		keys := 0
 		for i := range idx {
-			if i == 0 || compare(wrows[idx[i-1]], wrows[idx[i]]) != 0 {
+			if i == 0 || ownCmp(written[idx[i-1]], written[idx[i]]) != 0 {
 				keys++
 			}
 		}
@@ -1314,7 +1495,7 @@ func c10CheckWriterFile(c *core.Ctx, cs *c10Case, fi, nfiles int, file c10File) 
 		for i := range wrows {
 			found := false
 			for j := range got {
-				if compare(wrows[i], got[j]) == 0 {
+				if ownCmp(written[i], gotCells[j]) == 0 {
 					found = true
 					break
 				}
@@ -1576,6 +1757,19 @@ func (g *c10Gen) row() []c10Cell {
 			}
 			if null {
 				cells[k] = c10Cell{D: c.Rng.Intn(col.MaxDef)}
+			} else if col.typed() {
+				// an ordinal of the kind's domain: the first 2+2*dom of c10KindOrdinals (both signs and both
+				// ends of the domain also in the smallest domain)
+				kd := c10KindOf(col.Type)
+				ords := c10KindOrdinals(kd)
+				n := 2 + 2*g.dom
+				if n > len(ords) {
+					n = len(ords)
+				}
+				cells[k] = c10Cell{D: col.MaxDef, I: ords[c.Rng.Intn(n)]}
+				if kd.order == c10OrdFloat && cells[k].I == 0 {
+					cells[k].NZ = c.Rng.Intn(2) == 0
+				}
 			} else if col.Str {
 				cells[k] = c10Cell{D: col.MaxDef, S: c10Strs[c.Rng.Intn(g.dom)]}
 			} else {
@@ -1634,20 +1828,31 @@ func c10GenSorting(c *core.Ctx, cols []c10Col) []c10Sort {
 
 func c10GenCols(c *core.Ctx) []c10Col {
 	cols := []c10Col{{Name: "a_id"}}
-	if c.Rng.Intn(2) == 0 {
+	// one schema in three has no repeated leaf, and half of those required columns only: sorting columns
+	// that are all required then leave Schema.Comparator (the Less of a RowBuffer) on its index fast path
+	flat := c.Rng.Intn(3) == 0
+	allReq := flat && c.Rng.Intn(2) == 0
+	if !flat && c.Rng.Intn(2) == 0 {
 		// a repeated column BEFORE the candidate sorting columns: the values of
 		// a row are then not at the index of their column
 		cols = append(cols, c10Col{Name: "b_r", Rep: true, MaxDef: 1})
 	}
 	n := 1 + c.Rng.Intn(4)
 	for i := 0; i < n; i++ {
-		col := c10Col{Name: fmt.Sprintf("c%d", i+1), Str: c.Rng.Intn(2) == 0}
-		if c.Rng.Intn(3) != 0 {
+		col := c10Col{Name: fmt.Sprintf("c%d", i+1)}
+		switch c.Rng.Intn(4) {
+		case 0:
+			col.Str = true
+		case 1:
+		default:
+			col.Type = c10KindNames[c.Rng.Intn(len(c10KindNames))]
+		}
+		if c.Rng.Intn(3) != 0 && !allReq {
 			col.MaxDef = 1
 		}
 		cols = append(cols, col)
 	}
-	if c.Rng.Intn(2) == 0 {
+	if !flat && c.Rng.Intn(2) == 0 {
 		cols = append(cols, c10Col{Name: "r", Rep: true, MaxDef: 1})
 	}
 	return cols
@@ -1957,7 +2162,7 @@ Definition agrees (c : case) : bool :=
 // ---------------------------------------------------------------------------
 
 func runC10(c *core.Ctx) {
-	c.Res.Rule = "histories (write | writerows)* ; sort ; read ; write more ; sort ; read ... on parquet.NewGenericBuffer[T] (typed column writes), parquet.NewBuffer (dynamic Group schemas, WriteRows / Write), parquet.NewRowBuffer, and parquet.NewSortingWriter (sort-run sizes 1..N, buffer pools, DropDuplicatedRows, MaxRowsPerRowGroup; histories (write | writerows | flush)* close, one writer reused for 2-3 files through Reset, files abandoned by Reset; generated so that a file's smallest key is the previous file's greatest key and occurs once, in its first sort run) with every output file read back and checked against the rows written to it (sorted by Schema.Comparator, permutation; DropDuplicatedRows: one row per key, every key written kept) and against the model of the writer (c10.sw, Sort/Writer.v: same number of rows per file, at every position a row of the model's key, the same rows without DropDuplicatedRows). Schemas: a master struct (required/optional int64 and string columns, a dictionary column, an optional group with a nested optional leaf of max definition level 2, a repeated payload) and generated Group schemas; 1-3 sorting columns, asc/desc x nulls first/last; values from a small domain (duplicates), null/non-null runs of length 1..20 per column. Every swap sort.Sort performs is recorded and replayed in the model. Sorting by repeated columns (a []int64 column and a repeated group's optional leaf with null elements) runs the same histories on GenericBuffer against the model of repeatedColumnBuffer (logical rows, rows after Page, Less matrix == model's Less and == the proved comparator < 0, comparator matrix). A case is one history; non-trivial = at least 2 rows and a sort; distinct by the JSON of the case."
+	c.Res.Rule = "histories (write | writerows)* ; sort ; read ; write more ; sort ; read ... on parquet.NewGenericBuffer[T] (typed column writes), parquet.NewBuffer (dynamic Group schemas, WriteRows / Write), parquet.NewRowBuffer, and parquet.NewSortingWriter (sort-run sizes 1..N, buffer pools, DropDuplicatedRows, MaxRowsPerRowGroup; histories (write | writerows | flush)* close, one writer reused for 2-3 files through Reset, files abandoned by Reset; generated so that a file's smallest key is the previous file's greatest key and occurs once, in its first sort run) with every output file read back and checked against the rows written to it (sorted by Schema.Comparator, permutation; DropDuplicatedRows: one row per key, every key written kept) and against the model of the writer (c10.sw, Sort/Writer.v: same number of rows per file, at every position a row of the model's key, the same rows without DropDuplicatedRows). Schemas: a master struct (required/optional int64 and string columns, a dictionary column, an optional group with a nested optional leaf of max definition level 2, a repeated payload) and generated Group schemas; 1-3 sorting columns, asc/desc x nulls first/last; values from a small domain (duplicates), null/non-null runs of length 1..20 per column. Kinds of sorting columns (types.go): boolean, INT32/INT64 without logical type, INT(8|16|32|64) signed and unsigned, FLOAT, DOUBLE (negative values, +0 and -0, no NaN), BYTE_ARRAY, STRING, ENUM, FIXED_LEN_BYTE_ARRAY(5|16), UUID, DATE, TIME(ms|us|ns), TIMESTAMP(ms|us|ns), DECIMAL on INT32 / INT64 / FIXED_LEN_BYTE_ARRAY(9|16) / BYTE_ARRAY: the cells of such a column are integers (what the model compares) and the column holds their images under a strictly increasing embedding into the values of the type, spread over its whole width (both signs, both halves of the unsigned range, both ends of the domain so that differences overflow the width; checked exhaustively against the harness's comparator at the start of the run); every kind x {Buffer, RowBuffer, SortingWriter[any] over a Group schema, GenericBuffer[T], RowBuffer[T], SortingWriter[T] over a Go struct with fields of the kind (typed.go)} x {required ascending, required descending (no repeated leaf and no optional sorting column: the index fast path of Schema.Comparator), optional ascending/descending x nulls first/last + required}, and as columns of the generated Group schemas (one in three without a repeated leaf) of the random histories. Ordered is decided by the harness's own comparator on the decoded Go values (c10CmpCells: Less(i,j) for all pairs, Schema.Comparator's sign for all pairs, adjacent rows after sort.Sort and of every SortingWriter file, duplicate keys), not by the library's compare functions; the agreement of Less with Schema.Comparator is checked besides. Every swap sort.Sort performs is recorded and replayed in the model. Sorting by repeated columns (a []int64 column and a repeated group's optional leaf with null elements) runs the same histories on GenericBuffer against the model of repeatedColumnBuffer (logical rows, rows after Page, Less matrix == model's Less and == the proved comparator < 0, comparator matrix). A case is one history; non-trivial = at least 2 rows and a sort; distinct by the JSON of the case."
 	var vm []string
 	addVm := func(cs *c10Case, obs []c10Obs) {
 		for _, o := range obs {
@@ -1967,6 +2172,24 @@ func runC10(c *core.Ctx) {
 		}
 	}
 
+	// C10_TIMES=1: the time each section took, in the notes
+	tSec := time.Now()
+	section := func(name string) {
+		if os.Getenv("C10_TIMES") != "" {
+			c.Note("time %s: %.1fs (%d oracle calls so far)", name, time.Since(tSec).Seconds(), c.Res.OracleCalls)
+		}
+		tSec = time.Now()
+	}
+	// ---- the harness's own tables: every embedding is strictly increasing for the harness's comparator,
+	// every struct of typed.go has the schema of its columns
+	if msg := c10KindsSelfTest(); msg != "" {
+		panic("C10 harness self-test (types.go): " + msg)
+	}
+	if msg := c10TypedSelfTest(); msg != "" {
+		panic("C10 harness self-test (typed.go): " + msg)
+	}
+
+	section("self-tests")
 	// ---- corpus first: the two defects repaired in /repo
 	sw := []c10Step{
 		{Op: "write", Rows: [][]c10Cell{c10MasterRow(1, i64(5)), c10MasterRow(2, nil), c10MasterRow(3, i64(3))}},
@@ -2002,7 +2225,9 @@ func runC10(c *core.Ctx) {
 		addVm(cs, obs)
 		c.Sample(cs)
 	}
+	section("corpus")
 	c10Large(c)
+	section("large")
 
 	// ---- every direction x null order x column kind, single sorting column, runs around the kernel threshold
 	for _, kind := range []string{"generic", "buffer", "rowbuffer"} {
@@ -2028,13 +2253,70 @@ func runC10(c *core.Ctx) {
 			}
 		}
 	}
+	section("grid")
 	c.Note("grid: 3 buffer types x 7 sorting columns x asc/desc x nulls first/last x run lengths {1,7,8,9,20}")
 
+	// ---- every kind of sorting column x container x direction x required / optional (nulls first / last)
+	type c10Cont struct{ kind, strct string }
+	nKinds := 0
+	for round := 0; round < c.N(1, 5); round++ {
+		for _, kind := range c10KindNames {
+			conts := []c10Cont{{"buffer", ""}, {"rowbuffer", ""}, {"writer", ""}}
+			for _, fn := range c10FacNames {
+				if c10Facs[fn].kind == kind {
+					conts = append(conts, c10Cont{"generic", fn}, c10Cont{"rowbuffer", fn}, c10Cont{"writer", fn})
+				}
+			}
+			for _, ct := range conts {
+				for v := 0; v < 4 && c10Hangs == 0; v++ {
+					cs := &c10Case{Kind: ct.kind, Struct: ct.strct, Cols: c10TypedCols(kind)}
+					switch v {
+					case 0: // the required column alone: the comparator's index fast path
+						cs.Sorting = []c10Sort{{Col: 1}}
+					case 1:
+						cs.Sorting = []c10Sort{{Col: 1, Desc: true}}
+					case 2:
+						cs.Sorting = []c10Sort{{Col: 2, NullsFirst: c.Rng.Intn(2) == 0}, {Col: 1, Desc: c.Rng.Intn(2) == 0}}
+					default:
+						cs.Sorting = []c10Sort{{Col: 2, Desc: true, NullsFirst: c.Rng.Intn(2) == 0}, {Col: 1, Desc: c.Rng.Intn(2) == 0}}
+					}
+					g := c10NewGen(c, cs.Cols)
+					if g.maxRun > 9 {
+						g.maxRun = 9
+					}
+					if ct.kind == "writer" {
+						cs.SortRows = 2 + c.Rng.Intn(6)
+						cs.Dedupe = c.Rng.Intn(3) == 0
+						n := 10 + c.Rng.Intn(12)
+						k := 1 + c.Rng.Intn(n-1)
+						cs.Steps = []c10Step{{Op: "write", Rows: g.batch(k)}, {Op: "writerows", Rows: g.batch(n - k)}}
+					} else {
+						n := 6 + c.Rng.Intn(10)
+						cs.Steps = []c10Step{{Op: "write", Rows: g.batch(n)}, {Op: "sort"}, {Op: "read"},
+							{Op: "writerows", Rows: g.batch(1 + c.Rng.Intn(6))}, {Op: "sort"}, {Op: "read"}}
+					}
+					name := ct.kind
+					if ct.strct != "" {
+						name += "[struct]"
+					}
+					c10Run(c, cs, "kinds/"+name)
+					nKinds++
+					if nKinds == 1 || nKinds == 200 {
+						c.Sample(cs)
+					}
+				}
+			}
+		}
+	}
+	c.Note("kinds: %d kinds of sorting columns (%s) x {Buffer, RowBuffer, SortingWriter over a Group schema; GenericBuffer[T], RowBuffer[T], SortingWriter[T] over %d Go struct types} x {required asc, required desc (comparator index fast path), optional asc + required, optional desc + required}",
+		len(c10KindNames), strings.Join(c10KindNames, ", "), len(c10FacNames))
+
+	section("kinds")
 	// ---- random histories
-	nRand := c.N(700, 9000)
+	nRand := c.N(620, 9000)
 	for i := 0; i < nRand && c10Hangs == 0; i++ {
 		cs := &c10Case{}
-		switch c.Rng.Intn(6) {
+		switch c.Rng.Intn(8) {
 		case 0, 1:
 			cs.Kind, cs.Master, cs.Cols = "generic", true, c10MasterCols
 		case 2:
@@ -2043,8 +2325,14 @@ func runC10(c *core.Ctx) {
 			cs.Kind, cs.Cols = "buffer", c10GenCols(c)
 		case 4:
 			cs.Kind, cs.Master, cs.Cols = "rowbuffer", true, c10MasterCols
-		default:
+		case 5:
 			cs.Kind, cs.Cols = "rowbuffer", c10GenCols(c)
+		case 6:
+			cs.Kind, cs.Struct = "generic", c10FacNames[c.Rng.Intn(len(c10FacNames))]
+			cs.Cols = c10Facs[cs.Struct].cols
+		default:
+			cs.Kind, cs.Struct = "rowbuffer", c10FacNames[c.Rng.Intn(len(c10FacNames))]
+			cs.Cols = c10Facs[cs.Struct].cols
 		}
 		cs.Sorting = c10GenSorting(c, cs.Cols)
 		g := c10NewGen(c, cs.Cols)
@@ -2052,7 +2340,7 @@ func runC10(c *core.Ctx) {
 		if c.Rng.Intn(10) == 0 {
 			max = 120 // beyond the matrix limit: predicates only
 		}
-		cs.Steps = c10GenHistory(c, g, max, cs.Master)
+		cs.Steps = c10GenHistory(c, g, max, cs.Master || cs.Struct != "")
 		obs, _ := c10Run(c, cs, "random/"+cs.Kind)
 		if i%9 == 0 {
 			addVm(cs, obs)
@@ -2062,10 +2350,18 @@ func runC10(c *core.Ctx) {
 		}
 	}
 
+	section("random")
 	// ---- SortingWriter
 	nW := c.N(260, 3000)
 	for i := 0; i < nW && c10Hangs == 0; i++ {
 		cs := &c10Case{Kind: "writer", Master: true, Cols: c10MasterCols}
+		switch c.Rng.Intn(5) {
+		case 0: // the struct of a kind
+			cs.Master, cs.Struct = false, c10FacNames[c.Rng.Intn(len(c10FacNames))]
+			cs.Cols = c10Facs[cs.Struct].cols
+		case 1: // a Group schema (SortingWriter[any], WriteRows)
+			cs.Master, cs.Cols = false, c10GenCols(c)
+		}
 		cs.Sorting = c10GenSorting(c, cs.Cols)
 		cs.SortRows = 1 + c.Rng.Intn(12)
 		if c.Rng.Intn(5) == 0 {
@@ -2118,6 +2414,7 @@ func runC10(c *core.Ctx) {
 		}
 	}
 
+	section("writer")
 	// ---- one SortingWriter, several files: the next file starts at the previous file's greatest key
 	nReuse := c.N(120, 1200)
 	for i := 0; i < nReuse && c10Hangs == 0; i++ {
@@ -2128,6 +2425,7 @@ func runC10(c *core.Ctx) {
 		}
 	}
 
+	section("writer-reuse")
 	// ---- repeated columns as sorting columns (model: the repeated column buffer alone)
 	repRow := func(id int64, items []int64, nulls []bool, r []int64) []c10Cell {
 		return []c10Cell{{I: id}, {I: 1}, {L: items, N: nulls}, {L: r}}
@@ -2169,6 +2467,7 @@ func runC10(c *core.Ctx) {
 		}
 	}
 
+	section("repeated")
 	if c10Hangs > 0 {
 		c.Note("the run was cut short: %d calls into the implementation did not return", c10Hangs)
 	}
